@@ -4,6 +4,7 @@ package main
 
 import (
 	"fmt"
+	"math"
 	"math/rand"
 	"sort"
 	"strconv"
@@ -353,6 +354,9 @@ func c16Laws(w *W, r *rand.Rand, g *c16Gen) {
 		large := trial == 2
 		if large {
 			hi = 1e15
+			if r.Intn(2) == 0 {
+				hi = math.Inf(1)
+			}
 		}
 		m1, m2 := map[string]float64{}, map[string]float64{}
 		for k, v := range costs {
@@ -394,7 +398,7 @@ func c16Laws(w *W, r *rand.Rand, g *c16Gen) {
 						if large {
 							w.Inc("large_cost_checks")
 							if pb[k1] < pb[k2] {
-								w.Fail("large-cost-operand-not-last", "with cost 1e15 for %q the operand with tags [%s] (mentions it) is still before [%s] (does not)\nsource: %s\nconfig: %s\ndump: %s", n, k1, k2, src, b.Cfg, oneLine(b.Dump))
+								w.Fail("large-cost-operand-not-last", "with cost %v for %q the operand with tags [%s] (mentions it) is still before [%s] (does not)\nsource: %s\nconfig: %s\ndump: %s", hi, n, k1, k2, src, b.Cfg, oneLine(b.Dump))
 							}
 						}
 					case !m1n && !m2n:
